@@ -1,8 +1,8 @@
-SPECIFICATION SpecLegal
+SPECIFICATION SpecRep
 CONSTANT Cfg <- MCCfg2
 CONSTANT Solutions <- AllSolutions
-CONSTANT MaxEmpty = 3
-CONSTANT Extra = 1
+CONSTANT MaxEmpty = 4
+CONSTANT Extra = 2
 INVARIANT TypeOK
 INVARIANT Protocol
 INVARIANT MaskSound
